@@ -438,7 +438,7 @@ def same_term(a, b):
 
 # ---------------------------------------------------------------- context
 # every n-th discharged obligation of a process is re-decided by cvc5
-XCHECK = {'every': 0, 'n': 0, 'ms': 3000}
+XCHECK = {'every': 0, 'n': 0, 'ms': 2000}
 
 
 def escaped_from_repo(exc):
